@@ -26,6 +26,7 @@ CONSTANTS Ops,       \* operation identifiers
                      \* (GETDEL, or a pop of the last element) and is NOT in requires_blocking_migration
           InitTtl,   \* ttl class of the initial value: "none" | "some" | "zero" (PTTL answers 0)
           Variant,   \* "code" | seeded design errors "no_key_lock" | "restore_replace" | "no_barrier" | "ttl_zero_persist"
+                     \* | "skip_umsync_after_wait" (a deleting command that had to wait for the key lock is forwarded without UMSYNC)
           GetdelBlocking, \* TRUE: read-and-delete commands take the UMSYNC path like DEL (requires_blocking_migration)
           OwnerSwitch \* "async" = as implemented: when the next metadata arrives the destination proxy serves the
                      \*           slot directly at once, while commands still inside the pull pipeline finish later;
@@ -121,7 +122,7 @@ FinalSwitch == /\ mig = "FinalSwitch"
                /\ UNCHANGED <<src, dst, abs, pc, cap, ret, slotLock, keyLock, scan, scanCap, pendingDel, bad>>
 
 \* the coordinator commits and the next metadata reaches the proxies (separately)
-InPull(o) == pc[o] \in {"existsSent", "dumpSent", "restoreSent", "cmdAfterRestore", "fwdSent", "umsyncSent", "umsyncLocked", "umsyncDumped", "umsyncRestored", "umsyncDone", "wantKeyLock"}
+InPull(o) == pc[o] \in {"existsSent", "dumpSent", "restoreSent", "cmdAfterRestore", "fwdSent", "umsyncSent", "umsyncLocked", "umsyncDumped", "umsyncRestored", "umsyncDone", "wantKeyLock", "waitKeyLock", "fwdLocked"}
 NewMetaDst == /\ imp = "Committed"
               /\ OwnerSwitch = "sync" => \A o \in Ops : ~InPull(o)
               /\ imp' = "Owner"
@@ -215,11 +216,22 @@ SrcDel == /\ pendingDel > 0
 
 \* deleting commands: key lock, UMSYNC (transfer at the source proxy under the slot mutex), then the command
 WantKeyLock(o) ==
-    /\ pc[o] = "wantKeyLock"
+    /\ pc[o] \in {"wantKeyLock", "waitKeyLock"}
     /\ keyLock = "free" \/ Variant = "no_key_lock"
     /\ keyLock' = IF Variant = "no_key_lock" THEN keyLock ELSE o
-    /\ pc' = [pc EXCEPT ![o] = "umsyncSent"]
+    \* design error: "the holder of the lock has already transferred the key" - but its DEL at the source is still on its way
+    /\ pc' = [pc EXCEPT ![o] = IF Variant = "skip_umsync_after_wait" /\ pc[o] = "waitKeyLock" THEN "fwdLocked" ELSE "umsyncSent"]
     /\ UNCHANGED <<src, dst, abs, mig, imp, cap, ret, slotLock, scan, scanCap, pendingDel, bad>>
+\* the lock is taken: the command is parked in the pending-UMSYNC queue (handle_pending_umsync_task retries it)
+KeyLockBusy(o) ==
+    /\ pc[o] = "wantKeyLock" /\ keyLock # "free" /\ Variant # "no_key_lock"
+    /\ pc' = [pc EXCEPT ![o] = "waitKeyLock"]
+    /\ UNCHANGED <<src, dst, abs, mig, imp, cap, ret, slotLock, keyLock, scan, scanCap, pendingDel, bad>>
+ForwardLocked(o) ==
+    /\ ExecDst(o, "fwdLocked")
+    /\ pc' = [pc EXCEPT ![o] = "done"]
+    /\ keyLock' = IF keyLock = o THEN "free" ELSE keyLock
+    /\ UNCHANGED <<src, mig, imp, cap, slotLock, scan, scanCap, pendingDel>>
 
 UmsyncLock(o) ==
     /\ pc[o] = "umsyncSent" /\ slotLock = "free"
@@ -255,7 +267,7 @@ Next ==
     \/ \E o \in Ops :
           \/ Arrive(o) \/ AtSrc(o) \/ ExecSrc(o) \/ AtDst(o) \/ Direct(o)
           \/ ExistsReply(o) \/ Forward(o) \/ DumpReply(o) \/ Restore(o) \/ CmdAfterRestore(o)
-          \/ WantKeyLock(o) \/ UmsyncLock(o) \/ UmsyncDump(o) \/ UmsyncRestore(o) \/ UmsyncDel(o) \/ UmsyncReply(o)
+          \/ WantKeyLock(o) \/ KeyLockBusy(o) \/ ForwardLocked(o) \/ UmsyncLock(o) \/ UmsyncDump(o) \/ UmsyncRestore(o) \/ UmsyncDel(o) \/ UmsyncReply(o)
 
 Spec == Init /\ [][Next]_vars
 FairSpec == Spec /\ WF_vars(Next)
